@@ -37,8 +37,8 @@ BUDGET = {
     "thorough": {"examples": 15000, "wall_s": 1500, "shards": 16},
 }
 
-ISHAPES = (0, 2, 4, 7)
-OSHAPES = (0, 1, 2, 3, 4, 5, 7, 8, 9)
+ISHAPES = (0, 2, 4, 7, 11)
+OSHAPES = (0, 1, 2, 3, 4, 5, 7, 8, 9, 11)  # 11: a Mapping that is not a dict
 HASH = ("off", "same", "diff", "none")
 
 
